@@ -239,6 +239,42 @@ def run(tier, rep):
     total = Acc()
     for a in pmap(work, items):
         total.merge(a)
+
+    # comments where a semicolon is left to automatic insertion: every
+    # statement terminator (one at a time, and all) replaced by each layout
+    # that holds a comment; the restricted-production templates likewise
+    from mc.checks import c04 as C04
+    from mc.space import layouts as LAY
+    clays = [(n, l) for n, l in LAY.LAYOUTS if 'COMMENT' in n]
+    asi = []
+    for lex in G.programs(1):
+        for text, name in C04.variants(lex, clays, 'single-and-all'):
+            asi.append((text, 'asi|layout=%s' % name))
+    for tpl in C04.RESTRICTED:
+        for name, lay in clays:
+            asi.append((tpl.replace('{L}', lay), 'restricted|layout=%s' % name))
+    # comment spellings: blanks at the end of a line comment, stars and
+    # slashes inside, the empty comments
+    SPELL = ['// c  ', '//\tc\t', '//', '/**/', '/***/', '/* * / */',
+             '/*//*/', '// /* c', '/*c*/ // d  ', '//c \t ']
+    spell = []
+    for sp in SPELL:
+        for tpl in ('%s\na ;', 'a ; %s\n', 'a ; %s\nb ;',
+                    'function f ( ) { %s\nreturn a ; %s\n}',
+                    'x = { %s\np : 1 } ;', 'a = [ 1 , %s\n2 ] ;'):
+            spell.append((tpl.replace('%s', sp), 'spelling'))
+    extra = sorted(set(asi + spell))
+
+    def work2(chunk, idx):
+        acc = Acc()
+        for text, ctx in chunk:
+            check_text(acc, text, ctx, {'text': text, 'ctx': ctx})
+        return acc
+    for a in pmap(work2, extra):
+        total.merge(a)
+    rep.space('asi-through-comments', texts=len(set(asi)),
+              layouts=[n for n, l in clays])
+    rep.space('comment-spellings', texts=len(set(spell)), spellings=SPELL)
     rep.bag.merge(total.bag)
     rep.space('programs', count=len(items))
     rep.cov['states'] = total.cases
